@@ -15,6 +15,8 @@ R-C01.2  pipeline must-calls: analyze -> check_bb -> linearity -> unitary in che
 R-C01.3  block outputs of a branching block: the variables of every successor row are
          partitioned into "inside the branch sum" and "regular outputs" by complementary
          tests on the same flag the sort order uses (4-row truth table over copyable/droppable).
+R-C01.7  `choose_vars_for_tuple_sum` interpreted with a recording conditional builder on overlapping / equal / empty rows: every
+         live place enters the branch conditional exactly once, case i tags exactly row i's values in order (c01_sum.py).
 R-C01.4  return variables are prepended consistently to the exit signature and to every
          predecessor's output row (c01_retvars.py, below).
 """
@@ -220,3 +222,7 @@ def run(ctx: Ctx) -> None:
     # ------------------------------------------------------------ R-C01.6 block outputs vs successor inputs
     from . import c01_outputs
     c01_outputs.run(ctx)
+
+    # ------------------------------------------------------------ R-C01.7 the branch sum feeds every live place in once
+    from . import c01_sum
+    c01_sum.run(ctx)
